@@ -644,7 +644,29 @@ func runDispatch(c *Ctx, r *Reporter) {
 							}
 							continue
 						}
-						if equal || !mentionsField(bo.X, "Left", 8) {
+						// the left operand's type: expr.Left.Type(), possibly through its Name field
+						isLeftType := func(v ssa.Value) bool {
+							for i := 0; i < 4; i++ {
+								switch x := v.(type) {
+								case *ssa.UnOp:
+									v = x.X
+									continue
+								case *ssa.FieldAddr:
+									v = x.X
+									continue
+								case *ssa.Call:
+									if x.Call.IsInvoke() {
+										return mentionsField(x.Call.Value, "Left", 6)
+									}
+									if len(x.Call.Args) > 0 {
+										return mentionsField(x.Call.Args[0], "Left", 6)
+									}
+								}
+								break
+							}
+							return mentionsField(v, "Left", 6)
+						}
+						if equal || !isLeftType(bo.X) {
 							continue
 						}
 						switch y := bo.Y.(type) {
